@@ -2,6 +2,7 @@ package main
 
 import (
 	"fmt"
+	"go/token"
 	"strings"
 
 	"golang.org/x/tools/go/ssa"
@@ -648,6 +649,27 @@ func ruleC06BranchWith(c *Ctx) {
 				return
 			}
 			n++
+			// installed on every branch of that kind: the only conditions in front of the call are the arms of the
+			// type switch over the branch statement (and error tests)
+			for _, fc := range factsAt(ci.Block()) {
+				cond := fc.cond
+				for {
+					u, isU := cond.(*ssa.UnOp)
+					if !isU || u.Op != token.NOT {
+						break
+					}
+					cond = u.X
+				}
+				if ex, isEx := cond.(*ssa.Extract); isEx {
+					if _, isTA := ex.Tuple.(*ssa.TypeAssert); isTA {
+						continue
+					}
+				}
+				if bo, isBo := cond.(*ssa.BinOp); isBo && (isErrorT(bo.X.Type()) || isErrorT(bo.Y.Type())) {
+					continue
+				}
+				why = append(why, "the WITH of the union reaches a branch only under the condition "+NewTB().Of(fc.cond).String()+" (at "+c.P.Pos(ci.Pos())+"): a branch that fails it (a nested union without a WITH of its own, say) never sees the CTEs of the chain and silently contributes no rows")
+			}
 			arg := cc.Args[len(cc.Args)-1]
 			at := NewTB().Of(arg)
 			a, isMerge := callArgs(at, "MergeWith")
